@@ -37,7 +37,12 @@ Definition ch_wf (x : ch) : bool :=
     Bool.eqb (c_word x) (ascii_word (cp x)) && Bool.eqb (c_space x) (ascii_space (cp x))
     && Bool.eqb (c_digit x) (is_digit (cp x)) && N.eqb (c_ci x) (ascii_ci (cp x))
     && match c_low x with [l] => N.eqb l (ascii_lower (cp x)) | _ => false end
-  else true.
+  else
+    (* the categories of another character are consistent: a character that equals an ASCII letter when case is
+       ignored is a word character, a decimal digit is a word character, white space is neither *)
+    implb (negb (N.eqb (c_ci x) 0)) (is_lower (c_ci x) && c_word x && negb (c_space x) && negb (c_digit x))
+    && implb (c_digit x) (c_word x && negb (c_space x))
+    && implb (c_space x) (negb (c_word x)).
 
 (* ---------------------------------------------------------------- character classes *)
 Inductive cat := CWord | CSpace | CDigit.
@@ -295,9 +300,23 @@ Definition cls_nonascii (ic : bool) (cl : cls) : bool :=
   | CSet false items => existsb (item_nonascii ic) items
   end.
 Definition ascii_codes : list N := map N.of_nat (seq 0 128).
+(* does the class name a code point above 127 *)
+Definition item_explicit_nonascii (it : citem) : bool :=
+  match it with ILit c => N.leb 128 c | IRange _ b => N.leb 128 b | ICat _ _ => false end.
+Definition cls_explicit_nonascii (cl : cls) : bool :=
+  match cl with CAny => false | CSet _ items => existsb item_explicit_nonascii items end.
+(* the characters above 127 as a class that names none of them can tell them apart: by their categories and their
+   case-insensitive ASCII letter (combinations allowed by ch_wf); the code point lies outside every range < 128 *)
+Definition abstract_chars : list ch :=
+  let mk w s d ci := mkCh 1114112 w s d ci [] in
+  [mk false false false 0%N; mk false true false 0%N; mk true false false 0%N; mk true false true 0%N]
+  ++ map (fun l => mk true false false (N.of_nat l)) (seq 97 26).
+(* sound for well-formed characters (ch_wf): true -> no character is matched by both classes *)
 Definition cls_disjoint (ic : bool) (c1 c2 : cls) : bool :=
-  negb (cls_nonascii ic c1 && cls_nonascii ic c2)
-  && forallb (fun x => negb (cls_match ic c1 (ascii_ch x) && cls_match ic c2 (ascii_ch x))) ascii_codes.
+  forallb (fun x => negb (cls_match ic c1 (ascii_ch x) && cls_match ic c2 (ascii_ch x))) ascii_codes
+  && (if cls_explicit_nonascii c1 || cls_explicit_nonascii c2
+      then negb (cls_nonascii ic c1 && cls_nonascii ic c2)
+      else forallb (fun x => negb (cls_match ic c1 x && cls_match ic c2 x)) abstract_chars).
 
 Fixpoint nullable (r : re) : bool :=
   match r with
